@@ -332,6 +332,14 @@ impl Compile for Number {
     }
 }
 
+fn widen_int_literal(text: String) -> Number {
+    if text.parse::<i32>().is_ok() {
+        Number::Integer(text)
+    } else {
+        Number::BigInt(text)
+    }
+}
+
 pub fn number_from_string(string: &str, rule: Rule) -> Result<Number> {
     let as_str: String = string.chars().filter(|x| x != &'_').collect();
 
@@ -345,11 +353,13 @@ pub fn number_from_string(string: &str, rule: Rule) -> Result<Number> {
                 Number::BigInt(no_prefix.to_owned())
             }
         }
-        Rule::integer => Number::Integer(as_str),
+        // an integer literal that does not fit 32 bits is a bigint wherever it stands, not only
+        // where the whole expression folds: `a + 99999999999` must not emit an unloadable `make_int`
+        Rule::integer => widen_int_literal(as_str),
         Rule::hex_int => {
             let as_hex = i128::from_str_radix(&as_str[2..], 16)?.to_string();
 
-            Number::Integer(as_hex)
+            widen_int_literal(as_hex)
         }
         Rule::float => {
             if let Some(float_of_int) = as_str.strip_suffix(['F', 'f']) {
